@@ -48,7 +48,7 @@ META = {
                     'does not have, so only "never blocks" (I1) and "heals" (I5) are asserted after them',
                     'after a crash a file holds the old content, the new content or an unloadable prefix (the '
                     'SimFS flushes what was written before the kill)'],
-    'probe_names': ['target_location_checked', 'pauxdirs_from_config_file', 'pauxdirs_main_run', 'pauxdirs_same_job_name', 'pauxdirs_damaged_part', 'document_without_labels', 'common_label_saved', 'crash_between_truncate_and_write', 'crash_mid_write', 'crash_in_readback', 'crash_in_render',
+    'probe_names': ['rendered_reference_checked', 'target_location_checked', 'pauxdirs_from_config_file', 'pauxdirs_main_run', 'pauxdirs_same_job_name', 'pauxdirs_damaged_part', 'document_without_labels', 'common_label_saved', 'crash_between_truncate_and_write', 'crash_mid_write', 'crash_in_readback', 'crash_in_render',
                     'crash_before_paux', 'crash_after_save', 'loads_to_nondict', 'dict_without_renderer', 'edited_owner',
                     'healed_after_fault', 'cross_ref_resolved', 'other_block_preserved', 'xr_reader_used',
                     'corrupt_file_read', 'partial_restore_after_bad_entry', 'save_failed_run_continued', 'ioerr_open_r', 'ioerr_write', 'ioerr_open_w'],
@@ -326,7 +326,22 @@ def job(args, fs):
     if args.get('base_url'):
         argv += ['--base-url', args['base_url']]
     argv.append(args['file'])
+    w0 = len(fs.writes) if fs is not None else 0
     plasTeX.client.main(argv)
+    # what the reader of the rendered files sees next to each reference marker ('See r<i>x<j>x<k> <number>.')
+    rendered = {}
+    if fs is not None:
+        for rel in sorted(set(fs.writes[w0:])):
+            if not rel.endswith(('.html', '.txt')):
+                continue
+            try:
+                with lifetimes._real['open'](os.path.join(fs.root, rel), 'rb') as f:
+                    text = re.sub(r'<[^>]+>', ' ', f.read().decode('utf-8', 'replace'))
+            except Exception:
+                continue
+            for mm in re.finditer(r'\b(r\d+x\d+x\d+)\s+([^\s]+)', text):
+                rendered.setdefault(mm.group(1), mm.group(2))
+    obs['rendered_refs'] = rendered
     return obs
 
 
@@ -957,6 +972,23 @@ class Sim(object):
                 d = restored[lab]
                 if (target['ref'], target['url']) != (d['ref'], d['url']):
                     self.violation('C20|ref|wrong-target', {'label': lab, 'target': target, 'restored': d})
+                    return
+        # ... and the RENDERED text next to the reference shows the restored number (HTML and text renderers)
+        if not self.xr and R in ('HTML5', 'XHTML', 'Text', 'rend/SiteText'):
+            shown = res.get('rendered_refs') or {}
+            lsuf = self.docs[i].get('lsuf', '')
+            for (j, kk) in self.docs[i]['refs']:
+                lab = 'd%dL%d%s' % (j, kk, lsuf)
+                d = restored.get(lab)
+                fm2 = self.files.get(self.jn(j) + '.paux')
+                if d is None or d.get('ref') in (None, '') or fm2 is None or fm2['fuzzy'] or fm2.get('subset') or fm2['state'] != 'clean':
+                    continue
+                tok = shown.get('r%dx%dx%d' % (i, j, kk))
+                if tok is None:
+                    continue
+                self.info['rendered_reference_checked'] = 1
+                if tok.rstrip('.') != d['ref']:
+                    self.violation('C20|ref|rendered-number', {'label': lab, 'rendered': tok, 'restored': d, 'renderer': R, 'doc': i})
                     return
         if self.xr:
             self.info['xr_reader_used'] = 1
